@@ -98,7 +98,7 @@ func main() {
 						fmt.Printf("            %s\n", o.Note)
 					}
 					if o.Result == "error" {
-						fmt.Println(truncate(o.Model, 600))
+						fmt.Println(truncate(o.Model, 300))
 					}
 				}
 			}
